@@ -11,6 +11,7 @@ import Verif.Lemmas.SkipBinCause
 import Verif.Lemmas.SkipBRWrap
 import Verif.Lemmas.SkipBRSource
 import Verif.Lemmas.SkipBRCauseRef
+import Verif.Lemmas.SkipBRCauseInst
 namespace Verif.C17
 
 /-- the classifier and the grammar agree on what is a value, and on its extent -/
@@ -163,11 +164,58 @@ theorem skipBR_bytes_err (b : Bytes) (cap : Nat) (hcap : b.length ≤ cap) (hcap
   · exact .inr (.inr (.inl (by rw [h]; decide)))
   · exact .inr (.inr (.inr (by rw [h]; decide)))
 
+/-- ERROR-EXACT on bytes-backed readers — EVERY byte string, EVERY capacity ≥ its length, EVERY type
+    byte: BufferReader.Skip over NewBytesReader(b) consumes exactly the extent when the stream
+    classifier accepts; fails with the reader's error WRAPPED when the cause is truncation (the bytes
+    end before the value does); and otherwise fails with the protocol exception, without cause,
+    whose type id is Thrift's for the cause (NEGATIVE_SIZE 2, DEPTH_LIMIT 6, INVALID_DATA 1 for an
+    unknown type). -/
+theorem skipBR_bytes_exact (b : Bytes) (cap : Nat) (hcap : b.length ≤ cap) (t : UInt8) :
+    match causeStream 64 t b with
+    | .ok n => ∃ r', skipBR t (Rd.newBytes b cap) = .ok ((), r') ∧ r'.readLen = n
+    | .error c => ∃ e, skipBR t (Rd.newBytes b cap) = .err e ∧
+        (if c = .truncated then ∃ se, e = .wrap se else e = .pe (typeIdOf c)) := by
+  have h := skipBR_dry_cause (Rd.newBytes b cap) t (newBytes_dry b cap)
+  obtain ⟨hrem, hri⟩ := newBytes_remaining b cap hcap
+  rw [hrem] at h
+  cases hc : causeStream 64 t b with
+  | ok n =>
+    rw [hc] at h
+    obtain ⟨r', hx, _, hl⟩ := h
+    exact ⟨r', hx, by simp only [Rd.readLen] at hl ⊢; omega⟩
+  | error c => rw [hc] at h; exact h
+
+/-- ERROR-EXACT over C04's buffered reader on a LIVE scripted source (`Steady`: every byte of the
+    stream is deliverable before any error, whatever room the reader offers) — every stream ≤ 2^60
+    bytes, every such script (any chunking, empty reads short of the no-progress limit): the same
+    three-way agreement with the stream classifier. -/
+theorem skipBR_live_exact (S : Bytes) (script : List Resp) (hS : S.length ≤ sizeBound)
+    (hst : Steady Facts.maxConsecutiveEmptyReads script S.length 0 = true) (t : UInt8) :
+    match causeStream 64 t S with
+    | .ok n => ∃ r', skipBR t (Rd.newDefault ⟨S, script⟩) = .ok ((), r') ∧ r'.readLen = n
+    | .error c => ∃ e, skipBR t (Rd.newDefault ⟨S, script⟩) = .err e ∧
+        (if c = .truncated then ∃ se, e = .wrap se else e = .pe (typeIdOf c)) := by
+  have h := skipBR_live_cause (Rd.newDefault ⟨S, script⟩) t (newDefault_ok S script hS)
+    (live_newDefault S script hst)
+  obtain ⟨hrem, hri⟩ := newDefault_remaining S script
+  rw [hrem] at h
+  cases hc : causeStream 64 t S with
+  | ok n =>
+    rw [hc] at h
+    obtain ⟨r', hx, _, hl⟩ := h
+    exact ⟨r', hx, by simp only [Rd.readLen] at hl ⊢; omega⟩
+  | error c => rw [hc] at h; exact h
+
 /-! non-vacuity: an injected source error in the middle of a list, io.EOF on a short stream -/
 example : skipBR TT.LIST (Rd.newDefault ⟨[3, 0,0,0,4, 1,2], [⟨7, some (.src 2)⟩]⟩) = .err (.wrap (.src 2)) := by
   decide
 example : skipBR TT.STRING (Rd.newDefault ⟨[0,0,0,9, 1], [⟨5, none⟩]⟩) = .err (.wrap .eof) := by decide
 example : skipBR TT.STRING (Rd.newBytes [0xff, 0, 0, 0] 4) = .err (.pe 2) := by decide
+example : Steady Facts.maxConsecutiveEmptyReads [⟨1, none⟩, ⟨0, none⟩, ⟨1, none⟩, ⟨1, some .eof⟩] 3 0 = true := by
+  decide
+-- where the stream differs from Binary.Skip: a nested list at level 3 of 2 with nothing left
+example : causeBin 2 TT.LIST [0x0f, 0,0,0,1, 0x0f, 0,0,0,1] = .error .truncated ∧
+    causeStream 2 TT.LIST [0x0f, 0,0,0,1, 0x0f, 0,0,0,1] = .error .depth := by decide
 -- an unknown type requested on an empty input: Binary.Skip says "buffer too short" (truncated), the
 -- stream skipper says "unknown data type" without asking the reader — both INVALID_DATA
 example : causeBin 64 0x10 [] = .error .truncated ∧ causeStream 64 0x10 [] = .error .unknownType := by decide
